@@ -151,38 +151,39 @@ CoordBits(t) == Prec(t) - 6
 BoundBits(t) == Prec(t) - 4
 
 -----------------------------------------------------------------------------
-(* the volume relations: coordinate, the two ends (images), one variate r (Fx) *)
+(* the volume relations.  Everything that does not depend on the variate is computed once per event, as a
+   "frame"; x: the sample's image, lo, hi: the images of the two ends (Bottom, Top for the whole solid) *)
 
 Lerp(a, b, r) == FxAdd(a, FxMul(r, FxSub(b, a)))
 
-HeightRel(node, t, x, lo, hi, r) ==
-  LET sh == ShapeOf(node)
-      a == HeightCdf(sh, lo.v)  b == HeightCdf(sh, hi.v)
-      want == Lerp(FxMin(a, b), FxMax(a, b), r)
-      got == HeightCdf(sh, x.v)
-  IN FxNearAbs(got, want, Tol(got, want, t, HwbHeightAbs(node, t)))
-
-(* saturation^2 = n / d for the sample, n1 / d1 and n2 / d2 for the ends; everything multiplied out *)
-SatRel(node, t, x, lo, hi, r) ==
-  LET n == FxSqr(x.cn)   d == FxSqr(x.cd)
+(* height:      g = Cdf(x.v)                  ~  fl + r (fh - fl)        fl, fh: the ends' CDF values, ordered
+   saturation:  s^2 = n / d for the sample, n1 / d1 and n2 / d2 for the ends; multiplied out:
+                n d1 d2                       ~  d (sl + r (sh - sl))    sl, sh: n1 d2 and n2 d1, ordered      *)
+Frame(node, t, x, lo, hi) ==
+  LET shp == ShapeOf(node)
+      a == HeightCdf(shp, lo.v)  b == HeightCdf(shp, hi.v)
+      n == FxSqr(x.cn)   d == FxSqr(x.cd)
       n1 == FxSqr(lo.cn) d1 == FxSqr(lo.cd)
       n2 == FxSqr(hi.cn) d2 == FxSqr(hi.cd)
       A == FxMul(n1, d2)  B == FxMul(n2, d1)  dd == FxMul(d1, d2)
-      lhs == FxMul(n, dd)
-      rhs == FxMul(d, Lerp(FxMin(A, B), FxMax(A, B), r))
-  IN FxNearAbs(lhs, rhs, Tol(lhs, rhs, t, FxMul(HwbSatAbs(node, t), FxMul(x.cd, dd))))
+  IN [ g |-> HeightCdf(shp, x.v), fl |-> FxMin(a, b), fh |-> FxMax(a, b), habs |-> HwbHeightAbs(node, t),
+       lhs |-> FxMul(n, dd), d |-> d, sl |-> FxMin(A, B), sh |-> FxMax(A, B),
+       sabs |-> FxMul(HwbSatAbs(node, t), FxMul(x.cd, dd)) ]
+
+HeightRel(t, f, r) == LET want == Lerp(f.fl, f.fh, r) IN FxNearAbs(f.g, want, Tol(f.g, want, t, f.habs))
+SatRel(t, f, r) == LET rhs == FxMul(f.d, Lerp(f.sl, f.sh, r)) IN FxNearAbs(f.lhs, rhs, Tol(f.lhs, rhs, t, f.sabs))
 
 (* hue: h, lo, hi, r exact dyadics; h on the circle *)
 HueRel(t, h, lo, hi, r) ==
   DyLe(HU!CircDist(DySub(h, DyAdd(lo, DyMul(r, DySub(hi, lo))))), HueTol(t))
 
 (* some assignment of distinct variates to (height, saturation[, hue]); V: the variates as Dy *)
-VolumeNoHue(node, t, x, lo, hi, V) ==
-  \E a \in DOMAIN V : /\ HeightRel(node, t, x, lo, hi, FxOfDy(V[a]))
-                      /\ \E b \in DOMAIN V \ {a} : SatRel(node, t, x, lo, hi, FxOfDy(V[b]))
-VolumeAll(node, t, x, lo, hi, h, hlo, hhi, V) ==
-  \E a \in DOMAIN V : /\ HeightRel(node, t, x, lo, hi, FxOfDy(V[a]))
-                      /\ \E b \in DOMAIN V \ {a} : /\ SatRel(node, t, x, lo, hi, FxOfDy(V[b]))
+VolumeNoHue(t, f, V) ==
+  \E a \in DOMAIN V : /\ HeightRel(t, f, FxOfDy(V[a]))
+                      /\ \E b \in DOMAIN V \ {a} : SatRel(t, f, FxOfDy(V[b]))
+VolumeAll(t, f, h, hlo, hhi, V) ==
+  \E a \in DOMAIN V : /\ HeightRel(t, f, FxOfDy(V[a]))
+                      /\ \E b \in DOMAIN V \ {a} : /\ SatRel(t, f, FxOfDy(V[b]))
                                                    /\ \E c \in DOMAIN V \ {a, b} : HueRel(t, h, hlo, hhi, V[c])
 
 -----------------------------------------------------------------------------
@@ -263,11 +264,12 @@ Verdict(dist, node, t, al, lo, hi, VS, out) ==
       hlo == IF dist = "standard" THEN DyZero ELSE lo[hi_]
       hhi == IF dist = "standard" THEN D360 ELSE hi[hi_]
       huedom == hi_ # 0 /\ (dist = "standard" \/ HueDomain(hlo, hhi))
+      f == Frame(node, t, x, a, b)
   IN IF dist = "standard" /\ ~StandardWithin(node, t, al, out) THEN "standard-out-of-bounds"
      ELSE IF dist = "uniform" /\ ~UniformBetween(node, t, al, out, lo, hi) THEN "uniform-component-outside-ends"
-     ELSE IF vol /\ ~(\E V \in VS : VolumeNoHue(node, t, x, a, b, V)) THEN "not-volume-uniform"
+     ELSE IF vol /\ ~(\E V \in VS : VolumeNoHue(t, f, V)) THEN "not-volume-uniform"
      ELSE IF dist = "uniform" /\ huedom /\ ~OnArc(t, out[hi_], hlo, hhi) THEN "uniform-hue-off-arc"
-     ELSE IF vol /\ huedom /\ ~(\E V \in VS : VolumeAll(node, t, x, a, b, out[hi_], hlo, hhi, V))
+     ELSE IF vol /\ huedom /\ ~(\E V \in VS : VolumeAll(t, f, out[hi_], hlo, hhi, V))
           THEN "hue-not-uniform-on-arc"
      ELSE "ok"
 
